@@ -180,7 +180,7 @@ def contains (msg part : String) : Bool := isInfixC part.toList msg.toList
 def fieldStrings : LoadError S → List String
   | .dupElem o n => [o, n]
   | .badWidth u w => [u, toString w]
-  | .badEdge e => e
+  | .badEdge e => [Loader.pyStrList e]   -- the field is the edge (a list): its `str()` is what the message must contain
   | .undefElem x => [x]
   | .cyclic => []
   | .deadInput p => [p]
